@@ -5,7 +5,7 @@ import vlib
 C03_WHATS = {"removed-with-finalizers", "ready-with-finalizers", "tad-success-not-gone", "watchfor-not-first-match",
              "ctx-cancelled-spuriously", "missed-wakeup", "ctx-not-cancelled", "stale-read", "final-contents"}
 C04_WHATS = {"error-had-effect", "applied-twice", "conflict-retried-into-success", "returned-not-written",
-             "returned-not-current", "noop-success-without-effect", "rmw-not-on-current", "rmw-not-on-current-aba", "mutation-lost",
+             "returned-not-current", "noop-success-without-effect", "rmw-not-on-current", "rmw-not-on-current-aba", "mutation-lost", "ready-with-finalizers",
              "update-version", "rmw-call-never-returned", "create-over-existing", "modify-create-content", "unexpected-update", "stale-read",
              "final-contents"}
 
